@@ -38,3 +38,13 @@ Print Assumptions C02_careful_caller_any_capacity.
 Check ex_chunked. Check ex_upgrade. Check ex_slice_caller_within_block.
 (* known finding, not a theorem of the property: beyond one block the slice caller loses upgraded payload *)
 Check ex_slice_caller_drops_beyond_block.
+
+(* the per-connection loop of varlink::listen, with the bookkeeping read from server.rs (gen/WorkerGen.v): for every
+   segmentation of every stream it ends, having written exactly the specification's output for the stream - replies,
+   and after an upgrade every byte handed to the upgraded handler in order, exactly once *)
+From VL Require Import Worker WorkerFacts.
+Theorem C02_listen_worker_segmentation_independent : forall svc chunks fuel, (2 * length chunks + 2 <= fuel)%nat ->
+  src_worker svc fuel chunks = (spec_out svc (concat chunks), WFinished).
+Proof. exact src_worker_spec. Qed.
+Print Assumptions C02_listen_worker_segmentation_independent.
+Check stale_tail_is_redelivered.
